@@ -1,6 +1,6 @@
 (* Props/C09.v — C09 property theorems only. *)
 From Coq Require Import List Arith Bool.
-From Verif Require Import Model.C09_Import Proofs.C09.
+From Verif Require Import Model.C09_Import Proofs.C09 Proofs.C09b.
 Import ListNotations.
 
 (* export: whatever the graph, the walk writes every digest at most once (a tar with two entries of one name is never produced) *)
@@ -43,6 +43,27 @@ Theorem C09_failed_read_pushes_no_manifest : forall fuel a q s s' e, read_all fu
   exists l, out s' = out s ++ l /\ Forall blob_ev l.
 Proof. intros fuel a q s s' e H. apply read_all_ext in H. exact H. Qed.
 Print Assumptions C09_failed_read_pushes_no_manifest.
+
+(* import, the multi-pass read: for EVERY order of the entries of a complete OCI-layout archive - files only; the
+   marker, index.json with one entry naming the selected manifest, every digest that a present manifest references
+   present under its own name with its own content (extra files and repeated entries are allowed), index children
+   typed as manifests being manifests - the import succeeds within length+2 passes: no handler ever fails, the re-scans
+   terminate, the deferred pushes run, and the very last effect is giving the reference to the selected manifest *)
+Theorem C09_import_any_order : forall a q root rname,
+  (forall e, In e (entries a) -> exists n c, e = EFile n c) ->
+  (forall n c, In (EFile n c) (entries a) -> 3 <= n -> present a n -> c = n) ->
+  idx a = [(root, KMan, rname)] -> layout_ok a = true ->
+  (exists c, In (EFile 0 c) (entries a)) /\ (exists c, In (EFile 1 c) (entries a)) ->
+  3 <= root /\ present a root /\ content a root <> NBlob ->
+  (forall d, present a d -> 3 <= d ->
+     match content a d with
+     | NIndex ch => forall c k, In (c, k) ch -> 3 <= c /\ present a c /\ (k = KMan -> content a c <> NBlob)
+     | NImage cfg ls => (forall c, cfg = Some c -> 3 <= c /\ present a c) /\ (forall l, In l ls -> 3 <= l /\ present a l)
+     | NBlob => True
+     end) ->
+  exists evs, import (length (entries a) + 2) a q [] [] = Some (inl (evs ++ [EvTag root])) /\ (forall x, In (EvTag x) evs -> False).
+Proof. exact import_complete_archive. Qed.
+Print Assumptions C09_import_any_order.
 
 (* the handler of a blob-typed index entry: the code before the repair handed over a drained reader and failed for
    every non-empty blob the target lacks; the repaired code uploads it *)
